@@ -1,0 +1,133 @@
+//go:build verif
+
+// Contracts for govc (contract-based deductive verification); comments only.
+package utils
+
+//@ import v2alpha2 "github.com/NVIDIA/KAI-scheduler/pkg/apis/scheduling/v2alpha2"
+
+// Ghost set: pushed(j) <=> job j has been handed to PushJob of some JobsOrderByQueues
+// (i.e. is a candidate the action / the solver may pop; for a victims queue: a potential victim).
+//@ ghost pushed(j *podgroup_info.PodGroupInfo) bool
+
+// famJO(): some JobsOrderByQueues reference, used only to NAME whole heap families in `modifies family(...)`
+// clauses of functions that create their JobsOrderByQueues themselves (no such object in the pre-state).
+//@ declare famJO() *JobsOrderByQueues
+
+// PushJob drives container/heap through scheduler_util.PriorityQueue with comparator closures and
+// builds the queue-node tree recursively: outside the engine's subset. Assumed: it records at most
+// the given job in `pushed` and otherwise writes only the order structure itself (queue nodes,
+// priority queues, their item arrays) - never jobs, queues, options or the session.
+//@ func (*JobsOrderByQueues).PushJob
+//@   props C06 C16
+//@   trusted
+//@   note container/heap + comparator closures + recursive tree linking are outside the subset; assumed frame: only the order structure (queueNode / PriorityQueue objects, jo.queueNodes, jo.rootNodes) and the ghost flag of this job change
+//@   requires jo != nil && job != nil
+//@   modifies pushed(job), jo.queueNodes[*], jo.rootNodes, family(jo.rootNodes.queue), family(jo.rootNodes.maxQueueSize), family(jo.queueNodes[job.Queue].queue), family(jo.queueNodes[job.Queue].children), family(jo.queueNodes[job.Queue].needsReorder), family(jo.queueNodes[job.Queue].parent), family(jo.queueNodes[job.Queue].isLeaf), family(jo.rootNodes.queue.items[*])
+//@ end
+
+// C06: "Reclaim, preempt and consolidation never evict pods of non-preemptible workloads": a job is
+// pushed only if it passes every filter flag that is switched on, its queue (and the queue's parent)
+// exists and the queue is a leaf.
+//@ define queueOK(jo *JobsOrderByQueues, j *podgroup_info.PodGroupInfo) bool = j.Queue in jo.ssn.ClusterInfo.Queues && (jo.ssn.ClusterInfo.Queues[j.Queue].ParentQueue != "" ==> jo.ssn.ClusterInfo.Queues[j.Queue].ParentQueue in jo.ssn.ClusterInfo.Queues) && len(jo.ssn.ClusterInfo.Queues[j.Queue].ChildQueues) == 0
+// ready: every pod set has enough schedulable (alive, not gated) pods to reach its minimum
+//@ define ready(j *podgroup_info.PodGroupInfo) bool = forall k in j.PodSets :: j.PodSets[k].numAliveTasks - len(j.PodSets[k].podStatusIndex[pod_status.Gated]) >= j.PodSets[k].minAvailable
+//@ define flagsHold(jo *JobsOrderByQueues, j *podgroup_info.PodGroupInfo) bool = (jo.options.FilterNonPreemptible ==> j.Preemptibility == v2alpha2.Preemptible) && (jo.options.FilterUnready ==> ready(j)) && (jo.options.FilterNonPending ==> len(j.PodStatusIndex[pod_status.Pending]) > 0) && queueOK(jo, j)
+//@ define memberOf(m map[common_info.PodGroupID]*podgroup_info.PodGroupInfo, j *podgroup_info.PodGroupInfo) bool = exists k in m :: m[k] == j
+
+//@ func (*JobsOrderByQueues).InitializeWithJobs
+//@   props C06
+//@   requires jobsOrder != nil && jobsOrder.ssn != nil && jobsOrder.ssn.ClusterInfo != nil
+//@   requires forall k in jobsToOrder :: podgroup_info.allTasksOK(jobsToOrder[k]) && podgroup_info.setsOK(jobsToOrder[k])
+//@   requires forall q in jobsOrder.ssn.ClusterInfo.Queues :: jobsOrder.ssn.ClusterInfo.Queues[q] != nil
+//@   modifies family(pushed(jobsToOrder[""])), family(jobsOrder.queueNodes[*]), family(jobsOrder.rootNodes), family(jobsOrder.rootNodes.queue), family(jobsOrder.rootNodes.maxQueueSize), family(jobsOrder.queueNodes[""].queue), family(jobsOrder.queueNodes[""].children), family(jobsOrder.queueNodes[""].needsReorder), family(jobsOrder.queueNodes[""].parent), family(jobsOrder.queueNodes[""].isLeaf), family(jobsOrder.rootNodes.queue.items[*])
+//@   loop 1
+//@     invariant forall j *podgroup_info.PodGroupInfo :: pushed(j) && !old(pushed(j)) ==> old(flagsHold(jobsOrder, j)) && old(memberOf(jobsToOrder, j))
+//@   ensures [pushedOnlyFiltered] forall j *podgroup_info.PodGroupInfo :: pushed(j) && !old(pushed(j)) ==> old(flagsHold(jobsOrder, j))
+//@   ensures [pushedOnlyGiven] forall j *podgroup_info.PodGroupInfo :: pushed(j) && !old(pushed(j)) ==> old(memberOf(jobsToOrder, j))
+//@ end
+
+// ---- GetVictimsQueue -----------------------------------------------------------------------------------
+// filterHolds(f, j): victim filter f accepted job j. The filters passed by preempt and consolidation are the
+// closures under contract in those packages (their posts say what acceptance implies); here the filter is an
+// abstract parameter. Assumed frame of a filter call = the union of those two closures' frames.
+//@ declare filterHolds(f ref, j ref) bool
+//@ func param:GetVictimsQueue.filter
+//@   props C06
+//@   note assumed contract of the func-typed parameter: acceptance is recorded in the abstract predicate filterHolds; frame = the job's activeAllocatedCount cache cell pointer and int cells (the closures preempt.buildFilterFuncForPreempt$1 / consolidation.buildPreemptibleFilterFunc$1 write nothing else)
+//@   modifies arg0.activeAllocatedCount, family(*arg0.activeAllocatedCount)
+//@   ensures result ==> filterHolds(fn, arg0)
+//@ end
+
+// C06: the victims queue handed to the solver contains only session jobs that the action's filter accepted
+// (DESIGN: "contents ⊆ {job | filter(job)}"), whose queue exists and is a leaf.
+//@ func GetVictimsQueue
+//@   props C06
+//@   requires ssn != nil && ssn.ClusterInfo != nil
+//@   requires forall k in ssn.ClusterInfo.PodGroupInfos :: podgroup_info.allTasksOK(ssn.ClusterInfo.PodGroupInfos[k]) && podgroup_info.setsOK(ssn.ClusterInfo.PodGroupInfos[k])
+//@   requires forall q in ssn.ClusterInfo.Queues :: ssn.ClusterInfo.Queues[q] != nil
+//@   modifies family(ssn.ClusterInfo.PodGroupInfos[""].activeAllocatedCount), family(*ssn.ClusterInfo.PodGroupInfos[""].activeAllocatedCount), family(pushed(ssn.ClusterInfo.PodGroupInfos[""])), family(famJO().queueNodes[*]), family(famJO().rootNodes), family(famJO().rootNodes.queue), family(famJO().rootNodes.maxQueueSize), family(famJO().queueNodes[""].queue), family(famJO().queueNodes[""].children), family(famJO().queueNodes[""].needsReorder), family(famJO().queueNodes[""].parent), family(famJO().queueNodes[""].isLeaf), family(famJO().rootNodes.queue.items[*])
+//@   loop 1
+//@     invariant forall k in preemptees :: podgroup_info.allTasksOK(preemptees[k]) && podgroup_info.setsOK(preemptees[k])
+//@     invariant forall k in preemptees :: memberOf(ssn.ClusterInfo.PodGroupInfos, preemptees[k])
+//@     invariant forall k in preemptees :: filter == nil || filterHolds(filter, preemptees[k])
+//@   ensures [victimQueue] result != nil && result.options.VictimQueue
+//@   ensures [onlyAccepted] forall j *podgroup_info.PodGroupInfo :: pushed(j) && !old(pushed(j)) ==> filter == nil || filterHolds(filter, j)
+//@   ensures [onlySessionJobs] forall j *podgroup_info.PodGroupInfo :: pushed(j) && !old(pushed(j)) ==> memberOf(ssn.ClusterInfo.PodGroupInfos, j)
+//@ end
+
+// ---- exec: the job order as used by the Execute loops of preempt / reclaim / consolidation (C05) ----------
+// The order structure is a tree of container/heap priority queues with comparator closures (outside the
+// subset, like PushJob). orderEmpty(jo) is the abstract answer of IsEmpty. Assumed: IsEmpty reads only;
+// PopNextJob writes only the order structure itself (queue nodes, priority queues and their item arrays,
+// jo.queueNodes, jo.rootNodes, jo.poppedJobsByQueue) - never jobs, queues, the session or any other object -
+// and, on a non-empty order, returns a job (the tree keeps no empty node linked: handlePopFromNode prunes
+// them; getNextNode's "should never happen" branch). NB this holds only for orders built with
+// MaxJobsQueueDepth != 0: with depth 0 PushJob links a leaf whose job queue immediately drops the job, the
+// order is "not empty" and PopNextJob returns nil (reproduced on the real code, notes/exec_depth0_demo_test.go.txt);
+// the Execute units that rely on [nonEmptyYieldsJob] therefore carry `requires [queueDepthNotZero]`.
+//@ ghost orderEmpty(jo *JobsOrderByQueues) bool
+//@ func (*JobsOrderByQueues).IsEmpty
+//@   props C05
+//@   trusted
+//@   note container/heap priority queue (scheduler_util.PriorityQueue.Empty) is outside the subset; assumed read-only; the ghost orderEmpty names its answer
+//@   pure
+//@   ensures result == orderEmpty(jo)
+//@ end
+//@ func (*JobsOrderByQueues).PopNextJob
+//@   props C05
+//@   trusted
+//@   note container/heap + comparator closures + recursive tree relinking are outside the subset; assumed frame: only the order structure (queueNode / PriorityQueue objects, jo.queueNodes, jo.rootNodes, jo.poppedJobsByQueue) changes; assumed: a non-empty order yields a job (pruning invariant of the tree)
+//@   modifies orderEmpty(jo), jo.queueNodes[*], jo.rootNodes, jo.poppedJobsByQueue[*], family(jo.rootNodes.queue), family(jo.rootNodes.maxQueueSize), family(jo.queueNodes[""].queue), family(jo.queueNodes[""].children), family(jo.queueNodes[""].needsReorder), family(jo.queueNodes[""].parent), family(jo.queueNodes[""].isLeaf), family(jo.rootNodes.queue.items[*])
+//@   ensures [nonEmptyYieldsJob] !old(orderEmpty(jo)) ==> result != nil
+//@ end
+// ---- end exec ----
+
+// ---- frame contracts requested by the solver/allocate units (actions/common) ------------------------------
+// NewJobsOrderByQueues builds the order value (two fresh empty maps, the given session and options): executed in callers.
+//@ func NewJobsOrderByQueues
+//@   inline
+//@ end
+
+// A job is "pending" iff it has at least one Pending task; the result is a fresh map keyed by job UID.
+//@ func GetAllPendingJobs
+//@   props C05
+//@   requires ssn != nil && ssn.ClusterInfo != nil
+//@   requires forall k in ssn.ClusterInfo.PodGroupInfos :: ssn.ClusterInfo.PodGroupInfos[k] != nil
+//@   requires allocated(ssn.ClusterInfo.PodGroupInfos)
+//@   fresh
+//@   loop 1
+//@     invariant pendingJobs != ssn.ClusterInfo.PodGroupInfos && (forall k in ssn.ClusterInfo.PodGroupInfos :: ssn.ClusterInfo.PodGroupInfos[k] != nil)
+//@     invariant forall u in pendingJobs :: memberOf(ssn.ClusterInfo.PodGroupInfos, pendingJobs[u]) && pendingJobs[u].UID == u && len(pendingJobs[u].PodStatusIndex[pod_status.Pending]) > 0
+//@   ensures [onlyPendingSessionJobs] forall u in result :: memberOf(ssn.ClusterInfo.PodGroupInfos, result[u]) && result[u].UID == u && len(result[u].PodStatusIndex[pod_status.Pending]) > 0
+//@ end
+
+// Eviction message: string formatting plus the Session.Queue*Resources plugin callbacks (func-valued slices of
+// plugin closures: outside the subset). Assumed: whatever it touches, it neither appends to nor rewrites any
+// Statement log and no reverse operation fails inside it.
+//@ func GetMessageOfEviction
+//@   props C06 C13
+//@   trusted
+//@   note message formatting + calls through registered plugin callbacks (QueueAllocatedResources/QueueDeservedResources/QueueFairShare); assumed not to touch statement logs (framework.logsSame) nor the reverse-failure counter
+//@   modifies *
+//@   ensures framework.logsSame() && framework.reverseFailures() == old(framework.reverseFailures())
+//@ end
